@@ -39,6 +39,8 @@ type Prog struct {
 	// adopted: helpers outside the vocabulary that fill a role no vocabulary function fills any more
 	// (the function that had the role was replaced); treated as vocabulary for the rest of the run
 	adopted map[*ssa.Function]bool
+	// successors: renamed unexported methods of the vocabulary, resolved by what they write
+	successors map[string]*ssa.Function
 }
 
 func pkgPath(short string) string {
@@ -208,7 +210,61 @@ func (p *Prog) Method(pkg, typ, name string) *ssa.Function {
 			}
 		}
 	}
+	// an unexported method of the vocabulary that is gone under its name: its successor is the one
+	// method of the type outside the vocabulary that (itself or through helpers) writes the fields the
+	// old one was the only writer of
+	if flds, ok := successorByWrites[pkg+"."+typ+"."+name]; ok {
+		if fn, done := p.successors[pkg+"."+typ+"."+name]; done {
+			return fn
+		}
+		var got []*ssa.Function
+		ms := p.SSA.MethodSets.MethodSet(types.NewPointer(n))
+		for i := 0; i < ms.Len(); i++ {
+			fn := p.SSA.MethodValue(ms.At(i))
+			if fn == nil || fn.Synthetic != "" || fn.Blocks == nil || !p.IsNewHelper(fn) {
+				continue
+			}
+			wrote := map[string]bool{}
+			for hf := range helperGroup(p, fn) {
+				eachInstr(hf, func(_ *ssa.BasicBlock, in ssa.Instruction) {
+					if st, ok := in.(*ssa.Store); ok {
+						if nt, f, ok := fieldOf(st.Addr); ok && nt == n {
+							wrote[f] = true
+						}
+					}
+				})
+			}
+			all := true
+			for _, f := range flds {
+				if !wrote[f] {
+					all = false
+				}
+			}
+			if all {
+				got = append(got, fn)
+			}
+		}
+		if p.successors == nil {
+			p.successors = map[string]*ssa.Function{}
+		}
+		var res *ssa.Function
+		if len(got) == 1 {
+			res = got[0]
+			if p.adopted == nil {
+				p.adopted = map[*ssa.Function]bool{}
+			}
+			p.adopted[res] = true
+		}
+		p.successors[pkg+"."+typ+"."+name] = res
+		return res
+	}
 	return nil
+}
+
+// successorByWrites: unexported methods of the vocabulary that may be renamed, with the fields they
+// alone write.
+var successorByWrites = map[string][]string{
+	"rules.NetworkRule.preparePattern": {"regex"},
 }
 
 // Const returns the value object of a package-level constant.
